@@ -72,11 +72,28 @@ func AddRepository(ctx context.Context, url string) error {
 	if err := os.MkdirAll(repositoriesDir, 0755); err != nil {
 		return fmt.Errorf("couldn't create plugin repositories directory: %w", err)
 	}
+	// Write to a temporary file outside of the repositories directory (every file in there is read as a repository entry) and rename,
+	// so that an interrupted write never leaves a truncated entry, which would break all plugin commands.
 	simhook.CrashPoint("repository.before_write")
-	if err := os.WriteFile(filepath.Join(repositoriesDir, repo.Slug), data, 0644); err != nil {
+	tmpFile, err := os.CreateTemp(filepath.Dir(repositoriesDir), "repository-entry.tmp-")
+	if err != nil {
+		return fmt.Errorf("couldn't create temporary repository entry file: %w", err)
+	}
+	defer os.Remove(tmpFile.Name())
+	if _, err := tmpFile.Write(data); err != nil {
+		tmpFile.Close()
 		return fmt.Errorf("couldn't write repository entry: %w", err)
 	}
+	if err := tmpFile.Close(); err != nil {
+		return fmt.Errorf("couldn't write repository entry: %w", err)
+	}
+	if err := os.Chmod(tmpFile.Name(), 0644); err != nil {
+		return fmt.Errorf("couldn't set repository entry permissions: %w", err)
+	}
 	simhook.CrashPoint("repository.after_write")
+	if err := os.Rename(tmpFile.Name(), filepath.Join(repositoriesDir, repo.Slug)); err != nil {
+		return fmt.Errorf("couldn't move repository entry into place: %w", err)
+	}
 
 	return nil
 }
